@@ -89,6 +89,51 @@ def relation_check(ctx, c, outs):
     return None
 
 
+def subtract_check(ctx, c, outs):
+    """O1 - O2 (the misorientation mapped into the reduced zone of the two point groups) has the symmetry-reduced
+    angle O1.angle_with(O2), and neither changes when O1 is replaced by an equivalent representative"""
+    from orix.quaternion import Orientation
+    G = groups()[c["k"]]
+    G3 = groups()[c["k3"]]
+    O, R = representatives(G, c["q"], c["rep"])
+    O3 = Orientation(np.asarray(c["q3"], float).reshape(1, 4), symmetry=G3)
+    with warnings.catch_warnings():
+        warnings.simplefilter("ignore")
+        ref = float(np.atleast_1d(O.angle_with(O3))[0])
+        for nm, A, B in (("O - O3", O, O3), ("O3 - O", O3, O)):
+            try:
+                w = float(np.atleast_1d((A - B).angle)[0])
+            except NotImplementedError:
+                return None
+            if abs(w - ref) > TOL_ANG:
+                return (f"({G.name}, {G3.name}): the disorientation angle of {nm} is {w!r} but O.angle_with(O3) is {ref!r} "
+                        f"(O = {c['q']}, O3 = {c['q3']})")
+        if c.get("bulk"):
+            # many pairs at once: interphase pairs whose failure region is a few percent of orientation space
+            g = np.random.default_rng(c["bulk"])
+            qa = g.normal(size=(c["n"], 4))
+            qb = g.normal(size=(c["n"], 4))
+            A = Orientation(qa / np.linalg.norm(qa, axis=1)[:, None], symmetry=G)
+            B = Orientation(qb / np.linalg.norm(qb, axis=1)[:, None], symmetry=G3)
+            refs = A.angle_with(B)
+            try:
+                ws = (A - B).angle
+            except NotImplementedError:
+                return None
+            bad = np.flatnonzero(np.abs(ws - refs) > TOL_ANG)
+            if bad.size:
+                j = int(bad[0])
+                return (f"({G.name}, {G3.name}): the disorientation angle of O - O3 is {float(ws[j])!r} but O.angle_with(O3) "
+                        f"is {float(refs[j])!r} for O = {A.data[j].tolist()}, O3 = {B.data[j].tolist()} "
+                        f"({bad.size} of {c['n']} random pairs)")
+        wR = np.atleast_1d((R - O3).angle)
+        if np.abs(wR - ref).max() > TOL_ANG:
+            j = int(np.argmax(np.abs(wR - ref)))
+            return (f"({G.name}, {G3.name}): the disorientation angle of R - O3 is {float(wR[j])!r} for the {c['rep']} "
+                    f"representative R = {R.data.reshape(-1, 4)[j].tolist()} of O but {ref!r} for O itself")
+    return None
+
+
 def model_lines(c):
     G = groups()[c["k"]]
     return [f"dis brute {G.size} {G.size} {rot_line(G)} {rot_line(G)} {o_line(c['q'])} {o_line(c['q'])}"]
@@ -105,6 +150,7 @@ def model_check(ctx, c, outs):
 
 SITES = {
     "relation": sites.Site("relation", "prop", relation_check),
+    "subtract": sites.Site("subtract", "prop", subtract_check),
     "self_dot_model": sites.Site("self_dot_model", "corr", model_check, model_lines),
 }
 
@@ -142,8 +188,25 @@ def generate(ctx):
                      "k3": k if r % 2 == 0 else int(rng.integers(len(gs))), "v": GQ.vec(rng)}
                 ctx.count(f"relation/{rep}/{s}", ("r", k, rep, tuple(q)), nontrivial=G.size > 1)
                 yield "relation", c
+        for r in range(reps):
+            k3 = k if r == 0 else int(rng.integers(len(gs)))
+            rep = ("equivalent", "zone", "euler")[r % 3]
+            q, s = GQ.unit_quat(rng)
+            ctx.count(f"subtract/{rep}/{'same' if k3 == k else 'different'}", ("s", k, k3, tuple(q)), nontrivial=G.size > 1)
+            yield "subtract", {"k": k, "k3": k3, "name": G.name, "rep": rep, "q": q, "q3": GQ.unit_quat(rng)[0]}
         ctx.count("self_dot_model", ("m", k))
         yield "self_dot_model", {"k": k, "q": GQ.unit_quat(rng)[0]}
+    # interphase pairs from different crystal families (the two product sets Gl.Gr and Gr.Gl differ)
+    names = [G.name for G in gs]
+    fam = [("432", "622"), ("622", "432"), ("23", "32"), ("32", "23"), ("m-3m", "6/mmm"), ("432", "32"), ("m-3m", "6mm"),
+           ("422", "32"), ("-43m", "-6m2"), ("222", "3")]
+    for a, b in fam:
+        if a in names and b in names:
+            k, k3 = names.index(a), names.index(b)
+            ctx.count("subtract/bulk-interphase", ("sb", k, k3), nontrivial=True)
+            yield "subtract", {"k": k, "k3": k3, "name": a, "rep": "equivalent", "q": GQ.unit_quat(rng)[0],
+                               "q3": GQ.unit_quat(rng)[0], "bulk": int(rng.integers(1 << 31)),
+                               "n": 300 if ctx.tier == "quick" else 3000}
     ctx.sample({"site": "relation", **c})
 
 
